@@ -9,6 +9,7 @@
    same content, so equality with the content is also layout independence.
 3. larger seeded-random contents and layouts (40 curves, 300 frames) against the same content oracle.
 """
+import datetime
 import io
 import math
 
@@ -44,6 +45,14 @@ def make_content(rng, nhdr, nf, wrap, vers):
         W.append((m, u, t, v, rng.choice(DESCS)))
     c['W'] = W
     c['C'] = [(CURVES[i], rng.choice(UNITS), rng.choice(['', '7 350 02 00', '1']), None, rng.choice(DESCS)) for i in range(nhdr['C'])]
+    # DATE / TIME curves: typed (date / time objects) only with the units D / HHMMSS, plain floats with any other units,
+    # and the units D / HHMMSS on other curves mean nothing
+    if nhdr['C'] >= 3 and rng.random() < 0.6:
+        for k in rng.sample(range(1, nhdr['C']), min(2, nhdr['C'] - 1)):
+            m, u = rng.choice([('DATE', 'D'), ('TIME', 'HHMMSS'), ('DATE', 'S'), ('TIME', 'S'), ('TIME', 'D'), ('DATE', 'HHMMSS'),
+                               ('TIME', ''), (CURVES[k], 'HHMMSS'), (CURVES[k], 'D')])
+            if m not in [x[0] for x in c['C']]:
+                c['C'][k] = (m, u) + c['C'][k][2:]
     c['C'] = [(m, u, t, (int(t) if t == '1' else t), d) for (m, u, t, _, d) in c['C']]
     P = []
     for i in range(nhdr['P']):
@@ -54,6 +63,14 @@ def make_content(rng, nhdr, nf, wrap, vers):
     for f in range(nf):
         row = [('%.4f' % (100.0 + 0.5 * f), 100.0 + 0.5 * f)]
         for k in range(1, nhdr['C']):
+            if c['C'][k][:2] == ('DATE', 'D'):
+                d = datetime.date(1970 + rng.randrange(30), 1 + rng.randrange(12), 1 + rng.randrange(28))
+                row.append((d.strftime('%d-%b-%y'), d))
+                continue
+            if c['C'][k][:2] == ('TIME', 'HHMMSS'):
+                d = datetime.time(rng.randrange(24), rng.randrange(60), rng.randrange(60))
+                row.append((d.strftime('%H:%M:%S'), d))
+                continue
             row.append(rng.choice([('1.5', 1.5), ('-2.25', -2.25), ('1e3', 1000.0), ('0', 0.0), ('-999.25', None), ('NaNx', None),
                                    ('12:30', None), ('--', None), ('0.001', 0.001), ('123456.789', 123456.789)]))
         frames.append(row)
@@ -140,6 +157,10 @@ def compare(LASRead, content, text):
         for f in range(nf):
             want = content['frames'][f][ci][1]
             got = ch.array[f][0]
+            if isinstance(want, (datetime.date, datetime.time)):
+                if got != want or type(got) is not type(want):
+                    return 'channel %s frame %d: %r read as %r' % (ch.ident, f, content['frames'][f][ci][0], got)
+                continue
             if want is None:
                 if not (np.ma.is_masked(got) or float(got) == -999.25):
                     return 'channel %s frame %d: unparseable %r read as %r, not the null value' % (ch.ident, f, content['frames'][f][ci][0], got)
@@ -234,7 +255,7 @@ def run(ctx):
                 'with >= 1 comment/blank/space-only line')
     ctx.assumptions += ['mnemonics, units and descriptions are drawn from pools whose typed reading is unambiguous (no numeric or '
                         'yes/no mnemonics and units, descriptions free of colons, at least one space between unit and value)',
-                        'NULL is -999.25', 'curve mnemonics are distinct; no DATE/TIME typed channels']
+                        'NULL is -999.25', 'curve mnemonics are distinct; DATE.D / TIME.HHMMSS channels hold only well-formed dates / times (dd-Mon-yy, HH:MM:SS)']
     ctx.explanation = 'TLC design check of the reader against every layout; every TLC layout rendered and parsed by the real LASRead'
 
 
